@@ -552,8 +552,9 @@ def run_case(inp):
             return {"status": "skip-no-such-section"}
     else:
         x = ref
+    rkw = {"mnemonic_case": inp["case"]} if inp.get("case") else {}
     try:
-        r = lasio.read(x)
+        r = lasio.read(x, **rkw)
     except Exception as e:
         return {"status": "skip-first-read-raises", "detail": repr(e)[:200]}
     feat = features(r, opts)
@@ -567,7 +568,7 @@ def run_case(inp):
     compared = 0
     for cycle in range(1, inp.get("cycles", MAX_CYCLES) + 1):
         try:
-            r = lasio.read(t)
+            r = lasio.read(t, **rkw)
         except Exception as e:
             fails.append(("own-output-readable", "read(t%d) raised %r" % (cycle, e)))
             break
@@ -604,6 +605,8 @@ def klass_of(inp, feat, clause):
     src, mut, o = inp["src"], inp.get("mut"), inp["opts"]
     parts = ["src=%s" % src["kind"]]
     parts.append("mut=%s@%s" % (mut["kind"], mut["section"]) if mut else "mut=none")
+    if inp.get("case"):
+        parts.append("case=%s" % inp["case"])
     ver = o["version"] if o["version"] is not None else feat.get("vers_in")
     wrap = o["wrap"] if o["wrap"] is not None else (str(feat.get("wrap_in")).upper() == "YES")
     parts.append("ver=%s(%s)" % (ver, "opt" if o["version"] is not None else "file"))
@@ -658,6 +661,12 @@ def plan(tier, seed):
         for m in muts:
             for o in (hdr if (thorough and f in wide) else ver3):
                 add(src, m, o)
+    # 2b. every read of the cycle with mnemonic_case lower / preserve (the writer's copies and look-ups must keep working on
+    #     sections whose mnemonics are not upper case) x version None / 1.2 / 2.0
+    for f in (files if thorough else wide):
+        for case in ("lower", "preserve"):
+            for o in ver3:
+                cases.append({"src": {"kind": "corpus", "file": f}, "mut": None, "opts": o, "cycles": MAX_CYCLES, "case": case})
     # 3. generated, unmutated x option sets ; 4. generated, mutated
     ngen = 400 if thorough else 40
     for g in range(ngen):
@@ -714,7 +723,7 @@ def build_run(tier, seed):
             continue
         feat = res["feat"]
         nontrivial = res["compared"] >= 2 and feat["nc"] >= 1 and feat["nr"] >= 1 and feat["items"] >= 4
-        key = json.dumps([inp["src"], inp["mut"], inp["opts"]], sort_keys=True)
+        key = json.dumps([inp["src"], inp["mut"], inp["opts"], inp.get("case")], sort_keys=True)
         run.case(key, nontrivial=nontrivial, sample=inp if (i % 97 == 0) else None)
         seen = set()
         for clause, detail in res["fails"]:
@@ -723,7 +732,7 @@ def build_run(tier, seed):
             seen.add(clause)
             run.fail(clause, klass_of(inp, feat, clause), inp, detail)
     run.notes.append("skipped (outside the statement's domain 'lasio can read and then write'): %r" % (skips,))
-    run.notes.append("all reads use lasio.read defaults; texts stay in memory (StringIO), so no encoding round trip is exercised here")
+    run.notes.append("all reads use lasio.read defaults except the 'case=' cases (mnemonic_case lower / preserve on every read of the cycle); texts stay in memory (StringIO), so no encoding round trip is exercised here")
     run.notes.append("spacer='' / ',' and len_numeric_field smaller than the values are left out (not re-readable by construction; "
                      "the docstring requires the field to be wider than every value)")
     run.notes.append("curve data compared exactly (NaN == NaN): both sides are re-reads of text written with the same fmt")
